@@ -72,6 +72,7 @@ func Mix(seed uint64, idx int) uint64 {
 // Case is one generated case: input lines (replayed by the Lean driver), the implementation's
 // observation for each line, and tags describing which branches the case exercised.
 type Case struct {
+	T    *testing.T
 	Idx  int
 	Tier string
 	In   []string
@@ -221,12 +222,12 @@ func Run(t *testing.T, cfg Config) {
 				flush()
 				idx := 0
 				fmt.Sscanf(line, "#case %d", &idx)
-				cur = &Case{Idx: idx, Tier: tier}
+				cur = &Case{T: t, Idx: idx, Tier: tier}
 				cur.Tag("replay")
 				continue
 			}
 			if cur == nil {
-				cur = &Case{Idx: 0, Tier: tier}
+				cur = &Case{T: t, Idx: 0, Tier: tier}
 				cur.Tag("replay")
 			}
 			cur.In = append(cur.In, line)
@@ -238,7 +239,7 @@ func Run(t *testing.T, cfg Config) {
 		if idx%shards != shard {
 			continue
 		}
-		c := &Case{Idx: idx, Tier: tier}
+		c := &Case{T: t, Idx: idx, Tier: tier}
 		r := NewRNG(Mix(seed, idx))
 		if !cfg.Gen(r, c) {
 			break
